@@ -98,6 +98,7 @@ static struct timespec last_wait_time;
 static int method_idx;
 static int main_returned;
 static int empty_polls;
+static int cycle, cycles;
 
 static int rule_on(const char *r)
 {
@@ -1107,7 +1108,7 @@ static int would_block(struct env_wait *w)
 	}
 
 	n = build_menu(menu, 64, 1);
-	extra = fault_eintr_wait ? 1 : 0;
+	extra = fault_eintr_wait ? 2 : 0;
 	c = mc_choose(1 + n + extra, MC_STIM, can_timeout ? "block-t" : "block-inf");
 	if (c == 0) {
 		if (can_timeout) {
@@ -1120,6 +1121,16 @@ static int would_block(struct env_wait *w)
 	}
 	if (c == 1 + n) {
 		mc_obs("eintr");
+		eintr_since_wait = 1;
+		return ENV_WB_EINTR;
+	}
+	if (c == 2 + n) {
+		/* interrupted after part of the sleep has elapsed */
+		long long half = can_timeout ? env_ts_diff_ns(&until, &env_now) / 2 : 1000000;
+		if (half < 1)
+			half = 1;
+		env_advance_ns(half);
+		mc_obs("eintr-late");
 		eintr_since_wait = 1;
 		return ENV_WB_EINTR;
 	}
@@ -1142,8 +1153,16 @@ static int wait_fault(struct env_wait *w)
 
 static int io_eintr(const char *what, int fd)
 {
-	(void)fd;
+	int k = env_fd_kind(fd);
 	if (!fault_eintr_io || !in_main)
+		return 0;
+	/* only where an interrupted call is a real possibility and the caller is specified to retry: epoll_ctl, and
+	 * reads/writes of the raw-event descriptors (a non-blocking timerfd read or eventfd write never returns EINTR) */
+	if (!strcmp(what, "read") && k != ENV_FD_EVENTFD && k != ENV_FD_PIPE_R)
+		return 0;
+	if (!strcmp(what, "write") && k != ENV_FD_PIPE_W)
+		return 0;
+	if (!strcmp(what, "splice"))
 		return 0;
 	return mc_choose(2, MC_FAULT, what);
 }
@@ -1282,17 +1301,42 @@ static void exec_one(void)
 	for (i = 0; i < NFD; i++)
 		F[i].lfd = F[i].pfd = -1;
 
-	method_idx = methods[mc_choose(nm, MC_CONFIG, "method")];
-	env_exclude_methods = method_excl[method_idx];
+	if (mc_arg_int("exclsets", 0)) {
+		/* every exclusion set but "all four", in three spellings; the library must pick the first method not excluded */
+		static char ex[128];
+		int sub = 1 + mc_choose(15, MC_CONFIG, "exclusion-set") - 1, sp = mc_choose(3, MC_CONFIG, "spelling"), k, first = 1;
+		ex[0] = 0;
+		for (k = 0; k < 4; k++) {
+			int m = sp == 1 ? 3 - k : k;
+			if (!((sub >> m) & 1))
+				continue;
+			if (!first)
+				strcat(ex, sp == 2 ? "   " : " ");
+			if (sp == 2 && first)
+				strcat(ex, " ");
+			strcat(ex, method_name[m]);
+			first = 0;
+		}
+		for (k = 0; k < 4 && ((sub >> k) & 1); k++)
+			;
+		method_idx = k;
+		env_exclude_methods = ex;
+		mc_obs("exclude=\"%s\"", ex);
+	} else {
+		method_idx = methods[mc_choose(nm, MC_CONFIG, "method")];
+		env_exclude_methods = method_excl[method_idx];
+	}
 	si = seedl[mc_choose(ns, MC_CONFIG, "seed")];
 	if (si < 0 || si >= NSEEDS)
 		mc_broken("bad seed index %d", si);
 	sd = &seeds[si];
 	mc_obs("m=%s seed=%s", method_name[method_idx], sd->name);
 
+	cycles = mc_arg_int("cycles", 1);
+next_cycle:
 	allocs0 = env_lib_allocs_live;
 	iv_init();
-	if (strcmp(iv_poll_method_name(), method_name[method_idx])) {
+	if (cycle == 0 && strcmp(iv_poll_method_name(), method_name[method_idx])) {
 		/* with timerfd_create/ppoll absent the library legitimately settles on the next method */
 		if (!env_sc_errno[ENV_SC_TIMERFD_CREATE] && !env_sc_errno[ENV_SC_PPOLL])
 			FAIL("method-select", "excluded \"%s\" but the library selected %s", env_exclude_methods, iv_poll_method_name());
@@ -1332,6 +1376,15 @@ static void exec_one(void)
 		char b[256];
 		env_lib_fds_list(b, sizeof(b));
 		FAIL("leak-fd", "library descriptors still open after iv_deinit: %s", b);
+	}
+	if (++cycle < cycles) {
+		/* init / use / deinit again in the same thread: nothing may have been carried over */
+		mc_obs("cycle%d", cycle);
+		iter = 0;
+		zero_progress_waits = 0;
+		empty_polls = 0;
+		main_returned = 0;
+		goto next_cycle;
 	}
 	mc_done();
 }
